@@ -11,7 +11,8 @@ The index functions of `dcCubeLayout` (model3d/dc.go) — `cornerIdx`, `cubeCoor
 `%` and `/=`), `edgeCounts`, `xEdgeIdx`, `yEdgeIdx`, `zEdgeIdx` — as the source defines them NOW, with
 `nx = len(d.Xs)`, `ny = len(d.Ys)`, are the functions `cornerIdx`, `cubeCoord`, `xCount/yCount/zCount`,
 `x/y/zEdgeIdx` of the layout / edge–cube consistency theorems, for every layout with at least one sample
-per axis and all non-negative arguments.
+per axis and all non-negative arguments; and the composite `CubeEdges`, `CubeCorners`, `EdgeCorners` are the
+lists `cubeEdges`, `cubeCorners` and the pair `edgeCorners` of the model, entry by entry.
 -/
 namespace M3d.KernelsTie.DC
 open M3d.DC M3d.Gen.Kernels
@@ -74,5 +75,63 @@ theorem cubeCoord_eq (d : model3d.dcCubeLayout α) (hx : 1 ≤ d.Xs.length) (hy 
   have h2 : (Int.ofNat d.Ys.length - 1 : Int) = ((d.Ys.length - 1 : Nat) : Int) := by
     rw [len_cast]; exact (Nat.cast_sub hy).symm
   simp only [model3d.dcCubeLayout_cubeCoord, cubeCoord, h1, h2, tmod_cast, tdiv_cast]
+
+/-! ### round 3: the remaining translatable index functions (`CubeEdges`, `CubeCorners`, `EdgeCorners`);
+`EdgeCubes` uses a function literal and is outside the translator's subset (tied by the exhaustive `dcidx` correspondence). -/
+
+theorem succ_cast (a : Nat) : ((a : Int) + (1 : Int)) = ((a + 1 : Nat) : Int) := by push_cast; rfl
+theorem zero_add_cast (a : Nat) : ((a : Int) + (0 : Int)) = ((a : Nat) : Int) := by simp
+
+/-- `CubeEdges(c)`: the twelve edges of a cube, in the order of the source. -/
+theorem cubeEdges_eq (d : model3d.dcCubeLayout α) (hx : 1 ≤ d.Xs.length) (hy : 1 ≤ d.Ys.length) (c : Nat) :
+    (let r := model3d.dcCubeLayout_CubeEdges d c
+     [r.e0, r.e1, r.e2, r.e3, r.e4, r.e5, r.e6, r.e7, r.e8, r.e9, r.e10, r.e11]) =
+      (cubeEdges d.Xs.length d.Ys.length c).map (fun n => (n : Int)) := by
+  simp only [model3d.dcCubeLayout_CubeEdges, cubeCoord_eq d hx hy, succ_cast, xEdgeIdx_eq d hx hy,
+    yEdgeIdx_eq d hx hy, zEdgeIdx_eq d hx hy, cubeEdges, cubeEdgesC, edgeEncode, List.map_cons, List.map_nil]
+  rfl
+
+/-- `CubeCorners(c)`: `result[k + 2j + 4i] = (x+k) + ((y+j) + (z+i)·len(Ys))·len(Xs)`. -/
+theorem cubeCorners_eq (d : model3d.dcCubeLayout α) (hx : 1 ≤ d.Xs.length) (hy : 1 ≤ d.Ys.length) (c : Nat) :
+    (let r := model3d.dcCubeLayout_CubeCorners d c
+     [r.e0, r.e1, r.e2, r.e3, r.e4, r.e5, r.e6, r.e7]) =
+      (cubeCorners d.Xs.length d.Ys.length c).map (fun n => (n : Int)) := by
+  simp only [model3d.dcCubeLayout_CubeCorners, cubeCoord_eq d hx hy, cubeCorners, cornerIdx, len_cast,
+    List.map_cons, List.map_nil]
+  push_cast
+  simp
+
+/-- `EdgeCorners(e)`: decode the flat edge index (layer, then X-, Y-, Z-edges inside the layer, with Go's
+truncating `/` and `%`) and return the flat indices of the two ends, lower end first. -/
+theorem edgeCorners_eq (d : model3d.dcCubeLayout α) (hx : 1 ≤ d.Xs.length) (hy : 1 ≤ d.Ys.length) (e : Nat) :
+    (let r := model3d.dcCubeLayout_EdgeCorners d e
+     (r.e0, r.e1)) =
+      (((edgeCorners d.Xs.length d.Ys.length e).1 : Int), ((edgeCorners d.Xs.length d.Ys.length e).2 : Int)) := by
+  have hL : ((xCount d.Xs.length d.Ys.length : Int) + (yCount d.Xs.length d.Ys.length : Int)) +
+      (zCount d.Xs.length d.Ys.length : Int) = ((layerEdges d.Xs.length d.Ys.length : Nat) : Int) := by
+    simp only [layerEdges]; push_cast; ring
+  have hXY : ((xCount d.Xs.length d.Ys.length : Int) + (yCount d.Xs.length d.Ys.length : Int)) =
+      ((xCount d.Xs.length d.Ys.length + yCount d.Xs.length d.Ys.length : Nat) : Int) := by push_cast; rfl
+  have h1 : (Int.ofNat d.Xs.length - 1 : Int) = ((d.Xs.length - 1 : Nat) : Int) := by
+    rw [len_cast]; exact (Nat.cast_sub hx).symm
+  have h1' : ((d.Xs.length : Int) - 1) = ((d.Xs.length - 1 : Nat) : Int) := (Nat.cast_sub hx).symm
+  simp only [model3d.dcCubeLayout_EdgeCorners, edgeCounts_eq d hx hy, hL, h1, h1', len_cast, tdiv_cast, tmod_cast,
+    edgeCorners, edgeDecode, Nat.cast_lt, decide_eq_true_eq]
+  by_cases hA : e % layerEdges d.Xs.length d.Ys.length < xCount d.Xs.length d.Ys.length
+  · simp only [hA, if_true, edgeCornersC, h1', tdiv_cast, tmod_cast, succ_cast, cornerIdx_eq]
+  · have hge : xCount d.Xs.length d.Ys.length ≤ e % layerEdges d.Xs.length d.Ys.length := Nat.le_of_not_lt hA
+    simp only [hA, if_false, hXY, Nat.cast_lt]
+    by_cases hB : e % layerEdges d.Xs.length d.Ys.length < xCount d.Xs.length d.Ys.length + yCount d.Xs.length d.Ys.length
+    · have hs : ((e % layerEdges d.Xs.length d.Ys.length : Nat) : Int) - (xCount d.Xs.length d.Ys.length : Int) =
+          ((e % layerEdges d.Xs.length d.Ys.length - xCount d.Xs.length d.Ys.length : Nat) : Int) :=
+        (Nat.cast_sub hge).symm
+      simp only [hB, if_true, hs, tdiv_cast, tmod_cast, edgeCornersC, succ_cast, cornerIdx_eq]
+    · have hge2 : xCount d.Xs.length d.Ys.length + yCount d.Xs.length d.Ys.length ≤ e % layerEdges d.Xs.length d.Ys.length :=
+        Nat.le_of_not_lt hB
+      have hs : ((e % layerEdges d.Xs.length d.Ys.length : Nat) : Int) -
+          ((xCount d.Xs.length d.Ys.length + yCount d.Xs.length d.Ys.length : Nat) : Int) =
+          ((e % layerEdges d.Xs.length d.Ys.length - (xCount d.Xs.length d.Ys.length + yCount d.Xs.length d.Ys.length) : Nat) : Int) :=
+        (Nat.cast_sub hge2).symm
+      simp only [hB, if_false, hs, tdiv_cast, tmod_cast, edgeCornersC, succ_cast, cornerIdx_eq]
 
 end M3d.KernelsTie.DC
